@@ -326,6 +326,15 @@ Utility(method, x, y, z, rev) ==
     [] method = "newtonCooling" -> LET h == IF rev THEN RNeg(y) ELSE y   \* x = k, y = h, z = T_ext
                                    IN  <<x, h, RMul(h, z)>>
 DomainIntegral(g, V, phi) == WeightedSum(g, V, phi)
+\* index structure of the mesh object: cell_numbers() is the C-order numbering of the (N+2)^d array;
+\* `corners' / `edges' (2D: corners only) are the numbers of the inert cells the BC term pins
+CornerNumbers(g) == {LinIdx(g, c) : c \in {x \in AllCells(g) : GhostDegree(g, x) = Dim(g.cls)}}
+EdgeNumbers(g) == {LinIdx(g, c) : c \in {x \in AllCells(g) : GhostDegree(g, x) = 2}}
+MeshIndex(g, nums, corners, edges) ==
+  /\ \A k \in 1..Len(nums) : nums[k][2] = LinIdx(g, nums[k][1])
+  /\ {nums[k][1] : k \in 1..Len(nums)} = AllCells(g)
+  /\ Dim(g.cls) >= 2 => ({corners[k] : k \in 1..Len(corners)} = CornerNumbers(g) /\ Len(corners) = Cardinality(CornerNumbers(g)))
+  /\ Dim(g.cls) = 3 => ({edges[k] : k \in 1..Len(edges)} = EdgeNumbers(g) /\ Len(edges) = Cardinality(EdgeNumbers(g)))
 
 \* the reference mesh record (what the documentation promises)
 RefMesh(g) ==
